@@ -34,9 +34,16 @@ pub mod shadow_std {
         pub use ::std::hash::*;
     }
 
+    /// `Path`/`PathBuf` whose file-system queries see the simulated file system
+    #[cfg(feature = "path_shadow")]
+    pub mod path {
+        pub use super::super::simpath::{Path, PathBuf};
+        pub use ::std::path::*;
+    }
+
     pub mod fs {
         pub use super::super::simfs::{
-            canonicalize, copy, create_dir, create_dir_all, exists, metadata, read, read_dir, read_to_string, remove_dir,
+            canonicalize, copy, create_dir, create_dir_all, exists, metadata, read, read_dir, read_link, read_to_string, remove_dir,
             remove_dir_all, remove_file, rename, symlink_metadata, write, DirEntry, File, FileType, Metadata, OpenOptions,
             ReadDir,
         };
@@ -49,7 +56,7 @@ pub mod shadow_std {
     }
 
     pub mod env {
-        pub use super::super::simenv::{args, args_os, current_dir, var, var_os, vars};
+        pub use super::super::simenv::{args, args_os, current_dir, current_exe, temp_dir, var, var_os, vars};
         pub use ::std::env::*;
     }
 
@@ -478,6 +485,369 @@ pub mod coll {
 }
 
 // =============================================================================================
+// Paths
+// =============================================================================================
+/// `std::path::{Path, PathBuf}` as the generators see them: thin wrappers around the real types
+/// whose file-system *queries* (`exists`, `is_file`, `is_dir`, `metadata`, `read_dir`,
+/// `canonicalize`) are answered by the simulated file system — the image, what the session's runs
+/// wrote, what they deleted — instead of the real tree. Everything else (`join`, `parent`,
+/// `file_name`, `display`, ...) is the real implementation. Without this a program that asks
+/// `cache_path.exists()` would be told about the real disk, where nothing a simulated run wrote
+/// ever appears.
+#[cfg(feature = "path_shadow")]
+pub mod simpath {
+    use super::simfs;
+    use std::borrow::{Borrow, Cow};
+    use std::ffi::{OsStr, OsString};
+    use std::io;
+    use std::ops::Deref;
+    use std::path as real;
+
+    #[repr(transparent)]
+    #[derive(PartialEq, Eq, PartialOrd, Ord, Hash)]
+    pub struct Path(real::Path);
+
+    #[derive(Clone, Default, PartialEq, Eq, PartialOrd, Ord, Hash)]
+    pub struct PathBuf(real::PathBuf);
+
+    impl Path {
+        pub fn new<S: AsRef<OsStr> + ?Sized>(s: &S) -> &Path {
+            Path::wrap(real::Path::new(s))
+        }
+        pub(crate) fn wrap(p: &real::Path) -> &Path {
+            // repr(transparent) over real::Path
+            unsafe { &*(p as *const real::Path as *const Path) }
+        }
+        pub fn as_std(&self) -> &real::Path {
+            &self.0
+        }
+        // ---- queries answered by the simulated file system
+        pub fn exists(&self) -> bool {
+            simfs::stat(&self.0).is_ok()
+        }
+        pub fn try_exists(&self) -> io::Result<bool> {
+            Ok(self.exists())
+        }
+        pub fn is_file(&self) -> bool {
+            simfs::stat(&self.0).map(|m| m.is_file()).unwrap_or(false)
+        }
+        pub fn is_dir(&self) -> bool {
+            simfs::stat(&self.0).map(|m| m.is_dir()).unwrap_or(false)
+        }
+        pub fn is_symlink(&self) -> bool {
+            false
+        }
+        pub fn metadata(&self) -> io::Result<simfs::Metadata> {
+            simfs::stat(&self.0)
+        }
+        pub fn symlink_metadata(&self) -> io::Result<simfs::Metadata> {
+            simfs::stat(&self.0)
+        }
+        pub fn read_dir(&self) -> io::Result<simfs::ReadDir> {
+            simfs::read_dir(&self.0)
+        }
+        pub fn canonicalize(&self) -> io::Result<PathBuf> {
+            simfs::canonicalize(&self.0)
+        }
+        pub fn read_link(&self) -> io::Result<PathBuf> {
+            Err(io::Error::new(io::ErrorKind::InvalidInput, "not a symbolic link"))
+        }
+        // ---- everything that yields a path yields a wrapped one
+        pub fn parent(&self) -> Option<&Path> {
+            self.0.parent().map(Path::wrap)
+        }
+        pub fn join<P: AsRef<real::Path>>(&self, p: P) -> PathBuf {
+            PathBuf(self.0.join(p))
+        }
+        pub fn to_path_buf(&self) -> PathBuf {
+            PathBuf(self.0.to_path_buf())
+        }
+        pub fn with_extension<S: AsRef<OsStr>>(&self, e: S) -> PathBuf {
+            PathBuf(self.0.with_extension(e))
+        }
+        pub fn with_file_name<S: AsRef<OsStr>>(&self, n: S) -> PathBuf {
+            PathBuf(self.0.with_file_name(n))
+        }
+        pub fn strip_prefix<P: AsRef<real::Path>>(&self, base: P) -> Result<&Path, real::StripPrefixError> {
+            self.0.strip_prefix(base).map(Path::wrap)
+        }
+        pub fn ancestors(&self) -> impl Iterator<Item = &Path> {
+            self.0.ancestors().map(Path::wrap)
+        }
+        pub fn to_owned(&self) -> PathBuf {
+            self.to_path_buf()
+        }
+    }
+    impl Deref for Path {
+        type Target = real::Path;
+        fn deref(&self) -> &real::Path {
+            &self.0
+        }
+    }
+    impl std::fmt::Debug for Path {
+        fn fmt(&self, f: &mut std::fmt::Formatter) -> std::fmt::Result {
+            self.0.fmt(f)
+        }
+    }
+    impl ToOwned for Path {
+        type Owned = PathBuf;
+        fn to_owned(&self) -> PathBuf {
+            self.to_path_buf()
+        }
+    }
+    impl AsRef<real::Path> for Path {
+        fn as_ref(&self) -> &real::Path {
+            &self.0
+        }
+    }
+    impl AsRef<OsStr> for Path {
+        fn as_ref(&self) -> &OsStr {
+            self.0.as_os_str()
+        }
+    }
+    impl AsRef<Path> for Path {
+        fn as_ref(&self) -> &Path {
+            self
+        }
+    }
+    impl AsRef<Path> for str {
+        fn as_ref(&self) -> &Path {
+            Path::new(self)
+        }
+    }
+    impl AsRef<Path> for String {
+        fn as_ref(&self) -> &Path {
+            Path::new(self)
+        }
+    }
+    impl AsRef<Path> for OsStr {
+        fn as_ref(&self) -> &Path {
+            Path::new(self)
+        }
+    }
+    impl AsRef<Path> for OsString {
+        fn as_ref(&self) -> &Path {
+            Path::new(self)
+        }
+    }
+    impl AsRef<Path> for Cow<'_, OsStr> {
+        fn as_ref(&self) -> &Path {
+            Path::new(self)
+        }
+    }
+    impl AsRef<Path> for real::Path {
+        fn as_ref(&self) -> &Path {
+            Path::wrap(self)
+        }
+    }
+    impl AsRef<Path> for real::PathBuf {
+        fn as_ref(&self) -> &Path {
+            Path::wrap(self)
+        }
+    }
+    impl PartialEq<PathBuf> for Path {
+        fn eq(&self, o: &PathBuf) -> bool {
+            self.0 == *o.0
+        }
+    }
+    impl PartialEq<str> for Path {
+        fn eq(&self, o: &str) -> bool {
+            self.0 == *real::Path::new(o)
+        }
+    }
+    impl<'a> IntoIterator for &'a Path {
+        type Item = &'a OsStr;
+        type IntoIter = real::Iter<'a>;
+        fn into_iter(self) -> real::Iter<'a> {
+            self.0.iter()
+        }
+    }
+    impl<'a> From<&'a Path> for Cow<'a, Path> {
+        fn from(p: &'a Path) -> Self {
+            Cow::Borrowed(p)
+        }
+    }
+    impl From<&Path> for Box<Path> {
+        fn from(p: &Path) -> Box<Path> {
+            let b: Box<real::Path> = p.0.into();
+            // repr(transparent)
+            unsafe { Box::from_raw(Box::into_raw(b) as *mut Path) }
+        }
+    }
+
+    impl PathBuf {
+        pub fn new() -> PathBuf {
+            PathBuf(real::PathBuf::new())
+        }
+        pub fn with_capacity(n: usize) -> PathBuf {
+            PathBuf(real::PathBuf::with_capacity(n))
+        }
+        pub fn as_path(&self) -> &Path {
+            Path::wrap(&self.0)
+        }
+        pub fn push<P: AsRef<real::Path>>(&mut self, p: P) {
+            self.0.push(p)
+        }
+        pub fn pop(&mut self) -> bool {
+            self.0.pop()
+        }
+        pub fn set_file_name<S: AsRef<OsStr>>(&mut self, n: S) {
+            self.0.set_file_name(n)
+        }
+        pub fn set_extension<S: AsRef<OsStr>>(&mut self, e: S) -> bool {
+            self.0.set_extension(e)
+        }
+        pub fn into_os_string(self) -> OsString {
+            self.0.into_os_string()
+        }
+        pub fn into_boxed_path(self) -> Box<Path> {
+            self.as_path().into()
+        }
+        pub fn clear(&mut self) {
+            self.0.clear()
+        }
+        pub fn reserve(&mut self, n: usize) {
+            self.0.reserve(n)
+        }
+        pub fn capacity(&self) -> usize {
+            self.0.capacity()
+        }
+        pub fn into_std(self) -> real::PathBuf {
+            self.0
+        }
+    }
+    impl Deref for PathBuf {
+        type Target = Path;
+        fn deref(&self) -> &Path {
+            Path::wrap(&self.0)
+        }
+    }
+    impl std::fmt::Debug for PathBuf {
+        fn fmt(&self, f: &mut std::fmt::Formatter) -> std::fmt::Result {
+            self.0.fmt(f)
+        }
+    }
+    impl Borrow<Path> for PathBuf {
+        fn borrow(&self) -> &Path {
+            self
+        }
+    }
+    impl AsRef<Path> for PathBuf {
+        fn as_ref(&self) -> &Path {
+            self
+        }
+    }
+    impl AsRef<real::Path> for PathBuf {
+        fn as_ref(&self) -> &real::Path {
+            &self.0
+        }
+    }
+    impl AsRef<OsStr> for PathBuf {
+        fn as_ref(&self) -> &OsStr {
+            self.0.as_os_str()
+        }
+    }
+    impl<T: ?Sized + AsRef<OsStr>> From<&T> for PathBuf {
+        fn from(s: &T) -> PathBuf {
+            PathBuf(real::PathBuf::from(s.as_ref()))
+        }
+    }
+    impl From<String> for PathBuf {
+        fn from(s: String) -> PathBuf {
+            PathBuf(real::PathBuf::from(s))
+        }
+    }
+    impl From<OsString> for PathBuf {
+        fn from(s: OsString) -> PathBuf {
+            PathBuf(real::PathBuf::from(s))
+        }
+    }
+    impl From<real::PathBuf> for PathBuf {
+        fn from(p: real::PathBuf) -> PathBuf {
+            PathBuf(p)
+        }
+    }
+    impl From<PathBuf> for real::PathBuf {
+        fn from(p: PathBuf) -> real::PathBuf {
+            p.0
+        }
+    }
+    impl From<PathBuf> for OsString {
+        fn from(p: PathBuf) -> OsString {
+            p.0.into_os_string()
+        }
+    }
+    impl From<Box<Path>> for PathBuf {
+        fn from(p: Box<Path>) -> PathBuf {
+            p.to_path_buf()
+        }
+    }
+    impl<'a> From<Cow<'a, Path>> for PathBuf {
+        fn from(p: Cow<'a, Path>) -> PathBuf {
+            p.into_owned()
+        }
+    }
+    impl<'a> From<PathBuf> for Cow<'a, Path> {
+        fn from(p: PathBuf) -> Self {
+            Cow::Owned(p)
+        }
+    }
+    impl<'a> From<&'a PathBuf> for Cow<'a, Path> {
+        fn from(p: &'a PathBuf) -> Self {
+            Cow::Borrowed(p.as_path())
+        }
+    }
+    impl std::str::FromStr for PathBuf {
+        type Err = std::convert::Infallible;
+        fn from_str(s: &str) -> Result<PathBuf, Self::Err> {
+            Ok(PathBuf::from(s))
+        }
+    }
+    impl<P: AsRef<real::Path>> Extend<P> for PathBuf {
+        fn extend<I: IntoIterator<Item = P>>(&mut self, it: I) {
+            for p in it {
+                self.0.push(p);
+            }
+        }
+    }
+    impl<P: AsRef<real::Path>> FromIterator<P> for PathBuf {
+        fn from_iter<I: IntoIterator<Item = P>>(it: I) -> PathBuf {
+            let mut b = PathBuf::new();
+            b.extend(it);
+            b
+        }
+    }
+    impl<'a> IntoIterator for &'a PathBuf {
+        type Item = &'a OsStr;
+        type IntoIter = real::Iter<'a>;
+        fn into_iter(self) -> real::Iter<'a> {
+            self.0.iter()
+        }
+    }
+    impl PartialEq<Path> for PathBuf {
+        fn eq(&self, o: &Path) -> bool {
+            *self.0 == o.0
+        }
+    }
+    impl PartialEq<&Path> for PathBuf {
+        fn eq(&self, o: &&Path) -> bool {
+            *self.0 == o.0
+        }
+    }
+    impl PartialEq<str> for PathBuf {
+        fn eq(&self, o: &str) -> bool {
+            *self.0 == *real::Path::new(o)
+        }
+    }
+}
+
+/// the path type the simulated file system hands out
+#[cfg(feature = "path_shadow")]
+pub type OutPathBuf = simpath::PathBuf;
+#[cfg(not(feature = "path_shadow"))]
+pub type OutPathBuf = std::path::PathBuf;
+
+// =============================================================================================
 // File system
 // =============================================================================================
 pub mod simfs {
@@ -647,9 +1017,12 @@ pub mod simfs {
     pub fn exists<P: AsRef<Path>>(p: P) -> io::Result<bool> {
         Ok(stat(p.as_ref()).is_ok())
     }
-    pub fn canonicalize<P: AsRef<Path>>(p: P) -> io::Result<PathBuf> {
+    pub fn canonicalize<P: AsRef<Path>>(p: P) -> io::Result<super::OutPathBuf> {
         stat(p.as_ref())?;
-        Ok(real_path(p.as_ref()))
+        Ok(real_path(p.as_ref()).into())
+    }
+    pub fn read_link<P: AsRef<Path>>(_p: P) -> io::Result<super::OutPathBuf> {
+        Err(io::Error::new(io::ErrorKind::InvalidInput, "not a symbolic link"))
     }
 
     #[derive(Debug)]
@@ -659,8 +1032,8 @@ pub mod simfs {
         is_dir: bool,
     }
     impl DirEntry {
-        pub fn path(&self) -> PathBuf {
-            self.path.clone()
+        pub fn path(&self) -> super::OutPathBuf {
+            self.path.clone().into()
         }
         pub fn file_name(&self) -> OsString {
             OsString::from(&self.name)
@@ -1557,8 +1930,16 @@ pub mod simenv {
     pub fn vars() -> std::vec::IntoIter<(String, String)> {
         vec![].into_iter()
     }
-    pub fn current_dir() -> std::io::Result<std::path::PathBuf> {
-        Ok(world::with(|w| w.image.crate_dir.clone()))
+    pub fn current_dir() -> std::io::Result<super::OutPathBuf> {
+        Ok(world::with(|w| w.image.crate_dir.clone()).into())
+    }
+    /// where cargo puts the generator binaries of the repository workspace
+    pub fn current_exe() -> std::io::Result<super::OutPathBuf> {
+        let ws = world::with(|w| w.image.crate_dir.parent().map(|p| p.to_path_buf()).unwrap_or_default());
+        Ok(ws.join("target/debug/generator").into())
+    }
+    pub fn temp_dir() -> super::OutPathBuf {
+        std::path::PathBuf::from("/tmp").into()
     }
     /// `process::exit`: the process image is gone at this instant. Whatever is still buffered in
     /// user space (a `BufWriter` that was not flushed) is lost, exactly as in reality: the output
